@@ -17,7 +17,7 @@ fail=0
 echo "== static checks"
 (cd simrt && go test -count=1 -run TestNoHiddenNondeterminismInSimrt . >/dev/null) || { echo "FAIL: simrt static test"; fail=1; }
 if grep -n "\.Range(\|math/rand\|crypto/rand" simrt/*.go harness/*/*.go | grep -v _test.go; then echo "FAIL: forbidden nondeterminism source"; fail=1; fi
-if grep -n "time\.Now()\|time\.Since(" simrt/*.go | grep -v _test.go; then echo "FAIL: wall clock read in simrt"; fail=1; fi
+if grep -n "time\.Now()\|time\.Since(" simrt/*.go | grep -v "_test.go\|passthrough.go"; then echo "FAIL: wall clock read in simrt"; fail=1; fi
 echo "== process x GOMAXPROCS matrix ($N runs per slice, 4 slices, 3 GOMAXPROCS values, 3 repeats = 36 processes per property)"
 for prop in C13 C14 C15 C16; do
   for slice in 0 1 2 3; do
